@@ -809,6 +809,12 @@ def write_pam(matrix, matrix_size, out, scale=1, border=None, dark='#000', light
         bg_color += (0,)
         if len(stroke_color) != 4:
             stroke_color += (255,)
+    elif len(stroke_color) == 4 or len(bg_color) == 4:
+        # At least one color provides an alpha channel
+        tuple_type = 'RGB_ALPHA'
+        transparency = True
+        stroke_color = stroke_color[:3] + (stroke_color[3] if len(stroke_color) == 4 else 255,)
+        bg_color = bg_color[:3] + (bg_color[3] if len(bg_color) == 4 else 255,)
     elif colored_stroke or not (_color_is_black(bg_color) or _color_is_white(bg_color)):
         tuple_type = 'RGB'
     is_rgb = tuple_type.startswith('RGB')
